@@ -17,7 +17,7 @@ import os
 import re
 
 from vp.core import Group, Undecided, Extracted, sha
-from vp.extract import extract_function, extract_block, rewrite, match_brace
+from vp.extract import extract_function, extract_block, extract_span, rewrite, match_brace
 
 LEVEL = 'proof'
 EXPLANATION = (
@@ -713,10 +713,233 @@ def eval_groups(ctx):
     return groups
 
 
+# ------------------------------------------------------------------ part 3: literal typing
+
+LEX_CPP = 'src/occa/internal/utils/lex.cpp'
+STRING_CPP = 'src/occa/internal/utils/string.cpp'
+STRING_HPP = 'src/occa/internal/utils/string.hpp'
+TYPEDEFS_HPP = 'include/occa/types/typedefs.hpp'
+
+REF_OPEN = '\n#define c (*c_)'
+REF_CLOSE = ('C: end of the reference alias `#define c (*c_)`', r'\}\s*\Z', '#undef c\n}', 1)
+SUBSTR = r'std::string\(\s*(\w+)\s*,\s*(\w+)\s*-\s*(\w+)\s*\)'
+
+
+def _ptr_sig(ret, name, params):
+    return WS('%s %s(%s) {' % (ret, name, params))
+
+
+def lit_lex(ctx):
+    """lex::whitespaceCharset, inCharset, skipFrom, skipWhitespace (real text, C)."""
+    ws = extract_span(ctx, LEX_CPP, r'^[ \t]*const char whitespaceCharset\[\]\s*=', r';', name='lex::whitespaceCharset')
+    out = [rewrite(ws, [('C: lex::whitespaceCharset -> lex_whitespaceCharset', r'\bwhitespaceCharset\b', 'lex_whitespaceCharset', 1),
+                        ('C: namespace-scope const -> static const', r'^[ \t]*const char', 'static const char', 1)])]
+    sig = _ptr_sig('bool', 'inCharset', 'const char c, const char *charset')
+    f1 = extract_function(ctx, LEX_CPP, sig, name='lex::inCharset')
+    out.append(rewrite(f1, [('C: lex::inCharset -> static lex_inCharset', sig,
+                             'static bool lex_inCharset(const char c, const char *charset) {', 1)]))
+    sig = _ptr_sig('void', 'skipFrom', 'const char *&c, const char *delimiters')
+    f2 = extract_function(ctx, LEX_CPP, sig, name='lex::skipFrom')
+    out.append(rewrite(f2, [('C: reference parameter `const char *&c` -> pointer c_ + alias `#define c (*c_)` around the verbatim body',
+                             sig, 'static void lex_skipFrom(const char **c_, const char *delimiters) {' + REF_OPEN, 1),
+                            ('C: lex::inCharset -> lex_inCharset', r'\binCharset\(', 'lex_inCharset(', 1), REF_CLOSE]))
+    sig = _ptr_sig('void', 'skipWhitespace', 'const char *&c')
+    f3 = extract_function(ctx, LEX_CPP, sig, name='lex::skipWhitespace')
+    out.append(rewrite(f3, [('C: reference parameter -> pointer', sig, 'static void lex_skipWhitespace(const char **c_) {', 1),
+                            ('C: skipFrom(c, whitespaceCharset): reference argument -> c_, lex_ names',
+                             r'\bskipFrom\(\s*c\s*,\s*whitespaceCharset\s*\)', 'lex_skipFrom(c_, lex_whitespaceCharset)', 1)]))
+    return '\n\n'.join(t.strip() for t in out), [ws, f1, f2, f3]
+
+
+def lit_parse(ctx):
+    """uppercase(char), parseBinary(const char*), parseInt(const char*) (real text, C).  parseInt(const std::string&)
+    is the one-line forwarder `return occa::parseInt((const char*) str.c_str());` (checked), modelled by the call itself."""
+    if not re.search(r'typedef\s+uint64_t\s+udim_t\s*;', ctx.read(TYPEDEFS_HPP)):
+        raise Undecided('extraction break: udim_t is no longer `typedef uint64_t udim_t`')
+    src = ctx.read(STRING_CPP)
+    if not re.search(r'udim_t\s+parseInt\s*\(\s*const\s+std::string\s*&\s*str\s*\)\s*\{\s*return\s+occa::parseInt\(\(const char\*\)\s*str\.c_str\(\)\);\s*\}', src):
+        raise Undecided('extraction break: parseInt(const std::string&) is no longer the forwarder to parseInt(const char*)')
+    for nm, body in (('parseFloat', r'return\s+::atof\(str\.c_str\(\)\);'), ('parseDouble', r'return\s+occa::parseDouble\(str\.c_str\(\)\);')):
+        if not re.search(r'double\s+%s\s*\(\s*const\s+std::string\s*&\s*str\s*\)\s*\{\s*%s\s*\}' % (nm, body), src):
+            raise Undecided('extraction break: %s(const std::string&) changed (assumed contract: strtod of the text)' % nm)
+    up = extract_function(ctx, STRING_HPP, WS('inline char uppercase(const char c) {'), name='uppercase(char)')
+    out = [rewrite(up, [('C: inline -> static', r'\binline\b', 'static', 1)])]
+    sig = _ptr_sig('udim_t', 'parseBinary', 'const char*c')
+    pb = extract_function(ctx, STRING_CPP, sig, name='parseBinary(const char*)')
+    out.append(rewrite(pb, [('C: occa::parseBinary -> static occa_parseBinary', sig, 'static udim_t occa_parseBinary(const char *c) {', 1),
+                            ('C: lex::skipWhitespace(c) on the by-value parameter: reference argument -> &c',
+                             r'\blex::skipWhitespace\(\s*c\s*\)', 'lex_skipWhitespace(&c)', 1)]))
+    sig = _ptr_sig('udim_t', 'parseInt', 'const char *c')
+    pi = extract_function(ctx, STRING_CPP, sig, name='parseInt(const char*)')
+    out.append(rewrite(pi, [('C: occa::parseInt -> static occa_parseInt', sig, 'static udim_t occa_parseInt(const char *c) {', 1),
+                            ('C: lex::skipWhitespace(c) on the by-value parameter: reference argument -> &c',
+                             r'\blex::skipWhitespace\(\s*c\s*\)', 'lex_skipWhitespace(&c)', 1),
+                            ('C: parseBinary -> occa_parseBinary', r'\bparseBinary\(', 'occa_parseBinary(', 1)]))
+    return '\n\n'.join(t.strip() for t in out), [up, pb, pi]
+
+
+def _scalar_to_primitive(ex, text, is_load=False):
+    """C++ converts a scalar to primitive through the converting constructor selected by the static type;
+    in C the selection is spelled PRIM(e) (_Generic on the type of e, see constructors())."""
+    rules = [
+        ('C: p = true/false -> PRIM((_Bool) 1/0): the bool constructor (true/false are int in C)',
+         r'\bp\s*=\s*(true|false)\s*;', r'p = PRIM((_Bool) \1);', 2 if is_load else 0),
+        ('C: x.to<T>() -> primitive_to_T(x) (textual instantiation of the real to<T>)',
+         r'(\b\w+)\.to<(\w+)>\(\)', r'primitive_to_\2(\1)', None if is_load else 0),
+        ('C: p = <scalar of type T>; -> p = PRIM(...): converting constructor selected by the type of the cast / of to<T>()',
+         r'\bp\s*=\s*(\((?:float|double|u?int(?:8|16|32|64)_t)\)\s*[^;]+|primitive_to_\w+\(p\))\s*;', r'p = PRIM(\1);', None if is_load else 0),
+        ('C: default construction `primitive p;` made explicit', r'\bprimitive\s+p\s*;', 'primitive p = primitive_ctor_none();', '*'),
+    ]
+    ex2 = Extracted(name=ex.name, file=ex.file, line0=ex.line0, line1=ex.line1, sha256=ex.sha256, text=text)
+    text = rewrite(ex2, rules)
+    ex.rules += ex2.rules
+    # primitive(e) / primitive()
+    out, i, nv, nn = [], 0, 0, 0
+    rx = re.compile(r'(?<![\w:.])primitive\(')
+    while True:
+        m = rx.search(text, i)
+        if not m:
+            out.append(text[i:])
+            break
+        k = m.end() - 1
+        e = match_brace(text, k, '(', ')')
+        arg = text[k + 1:e]
+        out.append(text[i:m.start()])
+        if arg.strip():
+            if _is_bool_expr(arg):
+                raise Undecided('extraction break: %s constructs a primitive from a bool expression (no rule)' % ex.name)
+            out.append('PRIM(%s)' % arg)
+            nv += 1
+        else:
+            out.append('primitive_ctor_none()')
+            nn += 1
+        i = e + 1
+    ex.rules.append(('C: primitive(e) -> _Generic constructor selection on the static type of e', nv))
+    ex.rules.append(('C: primitive() -> primitive_ctor_none()', nn))
+    text = ''.join(out)
+    # every assignment to p now has a primitive-valued right-hand side
+    for m in re.finditer(r'\bp\s*=(?!=)\s*([^;]+);', text):
+        if not re.match(r'(PRIM\(|primitive_\w+\()', m.group(1)):
+            raise Undecided('extraction break: %s: assignment `p = %s` has no C translation rule' % (ex.name, m.group(1)[:40]))
+    return text
+
+
+def lit_load(ctx):
+    """primitive::loadBinary, loadHex, load (real text, C); load twice: the literal itself and, for the
+    recursive call on the exponent, a second textual instance."""
+    if not re.search(r'static\s+primitive\s+load\s*\(\s*const\s+char\s*\*\s*&\s*c\s*,\s*const\s+bool\s+includeSign\s*=\s*true\s*\)',
+                     ctx.read(PRIM_HPP)):
+        raise Undecided('extraction break: default argument includeSign = true of primitive::load changed')
+    out, exs = [], []
+    for kind in ('loadBinary', 'loadHex'):
+        sig = _ptr_sig('primitive', 'primitive::' + kind, 'const char *&c, const bool isNegative')
+        ex = extract_function(ctx, PRIM_CPP, sig, name='primitive::' + kind)
+        text = rewrite(ex, [('C: static member, reference parameter `const char *&c` -> pointer c_ + alias `#define c (*c_)`',
+                             sig, 'static primitive primitive_%s(const char **c_, const bool isNegative) {' % kind + REF_OPEN, 1),
+                            REF_CLOSE])
+        out.append(_scalar_to_primitive(ex, text))
+        exs.append(ex)
+    sig = _ptr_sig('primitive', 'primitive::load', 'const char *&c, const bool includeSign')
+    ex = extract_function(ctx, PRIM_CPP, sig, name='primitive::load(const char*&, bool)')
+    text = rewrite(ex, [
+        ('C: static member, reference parameter -> pointer c_ + alias', sig,
+         'static primitive @LOAD@(const char **c_, const bool includeSign) {' + REF_OPEN, 1),
+        ('C: p.source = "literal" -> ghost record of the spelling (struct primitive carries no std::string)',
+         r'\bp\.source\s*=\s*("[a-z]+")\s*;', r'verif_set_source_lit(\1);', 2),
+        ('C: p.source = std::string(a, b - a) -> ghost record of the spelling',
+         r'\bp\.source\s*=\s*' + SUBSTR + r'\s*;', r'verif_set_source(\1, \2 - \3);', 2),
+        ('C: occa::parseFloat/parseDouble(std::string(a, b - a)) -> assumed contract (strtod of that text) on the std::string model',
+         r'\bocca::parse(Float|Double)\(\s*' + SUBSTR + r'\s*\)', r'occa_parse\1(verif_string(\2, \3 - \4, ""))', 2),
+        ('C: parseInt(std::string(a, b - a) [+ "suffix"]) -> real parseInt(const char*) on the std::string model',
+         r'\bparseInt\(\s*' + SUBSTR + r'(?:\s*\+\s*"(\w*)")?\s*\)', r'occa_parseInt(verif_string(\1, \2 - \3, "\4"))', 1),
+        ('C: primitiveType::x -> primitiveType_x', r'\bprimitiveType::', 'primitiveType_', None),
+        ('C: lex::skipWhitespace(c) -> lex_skipWhitespace(c_)  (reference argument)', r'\blex::skipWhitespace\(\s*c\s*\)', 'lex_skipWhitespace(c_)', 1),
+        ('C: primitive::loadBinary/loadHex(++c, negative): reference argument -> (++c, c_)',
+         r'\bprimitive::(loadBinary|loadHex)\(\s*\+\+c\s*,\s*negative\s*\)', r'primitive_\1((++c, c_), negative)', 2),
+        ('C: recursive primitive::load(++c) -> next textual instance; default argument includeSign = true made explicit',
+         r'\bprimitive::load\(\s*\+\+c\s*\)', '@LOAD_REC@((++c, c_), true)', 1),
+        REF_CLOSE])
+    text = _scalar_to_primitive(ex, text, is_load=True)
+    for bad in ('std::', '.to<', 'primitive(', '::', '.source'):
+        if bad in re.sub(r'//[^\n]*', '', text):
+            raise Undecided('C extraction of primitive::load left C++ text behind: %s' % bad)
+    ex.rules.append(('recursion unrolled textually: instance 1 = the literal, instance 2 = its exponent; a third level is a stub '
+                     'that fails (a well-formed exponent contains no exponent)', 2))
+    proto = 'static primitive primitive_load_exponent(const char **c_, const bool includeSign);\n'
+    stub = ('static primitive primitive_load_exponent2(const char **c_, const bool includeSign) {\n'
+            '  __CPROVER_assert(0, "literal: the exponent of a well-formed literal contains no further exponent (recursion depth 2 is not reached)");\n'
+            '  __CPROVER_assume(0);\n  return primitive_ctor_none();\n}\n')
+    inst1 = text.replace('@LOAD@', 'primitive_load').replace('@LOAD_REC@', 'primitive_load_exponent')
+    inst2 = text.replace('@LOAD@', 'primitive_load_exponent').replace('@LOAD_REC@', 'primitive_load_exponent2')
+    out += [proto + stub, inst2, inst1]
+    exs.append(ex)
+    return '\n\n'.join(t.strip() for t in out), exs
+
+
+# shapes: (group suffix, harness set-up of the leading characters, filter on the spec result, largest literal length
+#          quick / thorough, description of the bound)
+def lit_shapes(tier):
+    q = tier == 'quick'
+    def shape(name, setup, filt, nmax, what):
+        return dict(name=name, setup=setup, filt=filt, nmax=nmax, what=what)
+    dd, hd, od, bd = (11, 9, 12, 33) if q else (20, 16, 22, 64)
+    return [
+        shape('any-text', '', '1', 8 if q else 11,
+              'every text of at most %d characters over all 256 byte values' % (8 if q else 11)),
+        shape('decimal', '', 'c14_spec.kind == C14_LIT_INT && c14_spec.base == 10', dd + 3,
+              'every decimal integer literal of at most %d digits with every integer-suffix' % dd),
+        shape('hexadecimal', "c14_text[0] = '0'; c14_text[1] = nondet_bool() ? 'x' : 'X';",
+              'c14_spec.kind == C14_LIT_INT && c14_spec.base == 16', 2 + hd + 3,
+              'every hexadecimal integer literal of at most %d digits with every integer-suffix' % hd),
+        shape('octal', "c14_text[0] = '0';", 'c14_spec.kind == C14_LIT_INT && c14_spec.base == 8', 1 + od + 3,
+              'every octal integer literal of at most %d digits after the leading 0 with every integer-suffix' % od),
+        shape('binary', "c14_text[0] = '0'; c14_text[1] = nondet_bool() ? 'b' : 'B';",
+              'c14_spec.kind == C14_LIT_INT && c14_spec.base == 2', 2 + bd + 3,
+              'every binary integer literal of at most %d digits with every integer-suffix' % bd),
+        shape('floating', '', 'c14_spec.kind == C14_LIT_FLOAT', 10 if q else 14,
+              'every decimal floating literal (double, or float by f/F suffix) of at most %d characters' % (10 if q else 14)),
+    ]
+
+
+def literal_groups(ctx, unit):
+    from vp import replay_C14
+    lex_c, e1 = lit_lex(ctx)
+    parse_c, e2 = lit_parse(ctx)
+    load_c, e3 = lit_load(ctx)
+    body = '\n'.join([
+        unit.common, '#include <string.h>', 'typedef uint64_t udim_t;',
+        '#define OCCA_UNSAFE 0   /* CMakeLists.txt: set(OCCA_UNSAFE OFF) */',
+        '#include "C14/spec.h"', '#include "C14/literal_spec.h"',
+        '#define C14_LITERAL_MODELS\n#include "C14/literal_harness.h"\n#undef C14_LITERAL_MODELS',
+        '/* ---- extracted from %s ---- */' % LEX_CPP, lex_c,
+        '/* ---- extracted from %s, %s ---- */' % (STRING_HPP, STRING_CPP), parse_c,
+        '/* ---- extracted from %s ---- */' % PRIM_CPP, load_c,
+        '#define C14_LITERAL_HARNESS\n#include "C14/literal_harness.h"\n'])
+    groups = []
+    for sh in lit_shapes(ctx.tier):
+        n = sh['nmax']
+        groups.append(Group(
+            name='literal/' + sh['name'], sources={'literal.c': body}, entry='h_literal', lang='c',
+            defines=['C14_LIT_MAX=%d' % n, 'C14_SHAPE_SETUP=%s' % sh['setup'], 'C14_SHAPE_FILTER=%s' % sh['filt']],
+            unwind=n + 6, checks=ARITH_CHECKS + PTR_CHECKS, min_obligations=8,
+            timeout=int(os.environ.get('C14_TIMEOUT', '900')),
+            functions=e3 + e2 + e1 + unit.common_ex, canary='CANARY', canary_label='canary',
+            strength='bounded', bound=sh['what'] + ', followed by any character that ends the token, then arbitrary text',
+            param='literal length <= %d' % n,
+            assumptions=['parseFloat/parseDouble (atof, sscanf %lf) return strtod of the text they are given: the double nearest to '
+                         'its longest prefix that is a decimal floating constant (assumed, libc); for an f-suffixed literal the '
+                         'value obligation is therefore "the float nearest to that double", not "the float nearest to the text"',
+                         'std::string(first, count) [+ "suffix"] . c_str() is modelled by a NUL-terminated copy (contracts/C14/literal_harness.h)',
+                         'strlen/strncmp: CBMC library models'],
+            note='loops unwound to the buffer length (unwinding assertions on); recursion of load unrolled textually (literal, exponent)',
+            replay=None if os.environ.get('C14_NO_REPLAY') else replay_C14.replay_literal))
+    return groups
+
+
 def build(ctx):
     unit = Unit(ctx)
     types = LITERAL_TYPES if ctx.tier == 'quick' else [t[0] for t in ALL_TYPES]
-    groups = op_groups(ctx, unit, types) + eval_groups(ctx)
+    groups = op_groups(ctx, unit, types) + eval_groups(ctx) + literal_groups(ctx, unit)
     if ctx.tier == 'thorough' or os.environ.get('C14_FIDELITY'):
         groups += fidelity_groups(ctx, unit, types)
     only = os.environ.get('C14_ONLY')          # development aid: run a subset of the groups
